@@ -11,3 +11,7 @@ import BS.Properties.C10m
 #print axioms BS.Merge.run_spec
 #print axioms BS.Merge.reduce_machine_spec
 #print axioms BS.Merge.reduce_machine_sorted
+#print axioms BS.Merge.mrun_spec
+#print axioms BS.Merge.merge_machine_spec
+#print axioms BS.Merge.merge_machine_leftmost
+#print axioms BS.Merge.leftmost_legal
